@@ -30,7 +30,9 @@ MAX_PROCS = 12
 
 def gen_cases(seed, tier):
     n = 48 if tier == "quick" else 2400
-    return [{"cls": "split", "seed": seed * 1000 + i, "_w": 3} for i in range(n)]
+    cases = [{"cls": "split", "seed": seed * 1000 + i, "_w": 3} for i in range(n)]
+    cases += [{"cls": "split", "long": True, "seed": seed * 1000 + 900 + i, "_w": 25} for i in range(2 if tier == "quick" else 16)]
+    return cases
 
 
 def run_case(case):
@@ -47,6 +49,10 @@ def run_case(case):
     ns = int(rng.integers(180, 4200))
     if rng.random() < 0.2:
         ns = window + (window - 576) * int(rng.integers(0, 4))          # exactly aligned
+    if case.get("long"):
+        # longer than the 60000-sample windows of check_NP24 / NP2Reconstructor; the converter runs with its DEFAULT window
+        ns = int(rng.integers(60001, 66000)) if rng.random() < 0.7 else 120000 + int(rng.integers(-2, 3))
+        window = None
     content = "allvalues" if rng.random() < 0.6 else "allvalues-inrange"
     post_check = bool(rng.integers(0, 2))
     compress = bool(rng.integers(0, 2))
@@ -65,7 +71,8 @@ def run_case(case):
     # ------------------------------------------------------------------ split
     try:
         conv = neuropixel.NP2Converter(b, post_check=post_check, compress=compress, delete_original=False)
-        conv.init_params(nwindow=window)
+        if window is not None:
+            conv.init_params(nwindow=window)
         status = conv.process()
         conv.sr.close()
     except AssertionError as e:
